@@ -263,6 +263,9 @@ def rules(rep, facts):
     if 'serde' in feats and 'serde_spanned' in facts.crates:
         r3_bridge(rep, facts)
         r4_uniform(rep, facts)
+        from .rules_c15 import r1_span_attached
+        r1_span_attached(rep, facts)
+        rep.relabel('C15/R1', 'C14/R7', 'error locations delivered through serde are the innermost value\'s span: ')
 
 
 def _witnesses(rep):
